@@ -1,0 +1,41 @@
+//go:build verif
+
+package k8s
+
+// Accessors for the C15 monitor of the verification harness (build tag
+// `verif` only; never used by production code). They prepare the k8s pod
+// meta cache the way the package's own tests do (meta.DisableMetaUpdates,
+// meta.EnableGatherer, meta.PutMeta), so that the real k8s-multiline action
+// can run inside a pipeline without a Kubernetes API server.
+
+import (
+	"sync"
+
+	"github.com/ozontech/file.d/plugin/input/k8s/meta"
+	"go.uber.org/zap"
+	corev1 "k8s.io/api/core/v1"
+)
+
+var verifC15Once sync.Once
+
+// VerifC15InitMeta enables the meta gatherer without API access (once per
+// process) and sets the node name / node labels.
+func VerifC15InitMeta(node string, nodeLabels map[string]string) {
+	verifC15Once.Do(func() {
+		meta.DisableMetaUpdates = true
+		meta.EnableGatherer(zap.NewNop().Sugar())
+	})
+	meta.SelfNodeName = node
+	meta.MetaData.NodeLabels = nodeLabels
+}
+
+// VerifC15PutPod registers one pod/container in the meta cache.
+// containerID must be 64 characters long.
+func VerifC15PutPod(ns, pod, container, containerID string, labels map[string]string) {
+	p := &corev1.Pod{}
+	p.Namespace = ns
+	p.Name = pod
+	p.Labels = labels
+	p.Status.ContainerStatuses = []corev1.ContainerStatus{{Name: container, ContainerID: "containerd://" + containerID}}
+	meta.PutMeta(p)
+}
